@@ -9,7 +9,7 @@ from vt import detsched as ds, aosim
 ID = 'C09'
 ENGINE = 'detsched'
 TECHNIQUE = 'runtime monitoring under a deterministic cooperative scheduler: the object\'s thread is held inside a handler by a cooperative gate while events are posted and published; position oracle over the linearised deque log and the resulting dispatch order'
-RULE = ('1-3 started ActiveObjects, each subscribed to a signal with queue_type lifo, fifo, the default, BOTH ways one call after the other, or the SAME way twice (before start_at or after it), their '
+RULE = ('1-3 started ActiveObjects (a third of them with instrumentation switched off), each subscribed to a signal with queue_type lifo, fifo, the default, BOTH ways one call after the other, or the SAME way twice (before start_at or after it), their '
         'threads held inside a handler by a gate; 0-5 pending events are posted (fifo), then a burst of 1-4 unique-id publications of the '
         'subscribed signal is made and the fabric left to deliver (detsched random/PCT); the gate opens. In half of the runs a further '
         'thread posts fifo events to every object while the fabric delivers. The dispatch order after the gate must be: lifo subscriber - '
@@ -18,7 +18,7 @@ RULE = ('1-3 started ActiveObjects, each subscribed to a signal with queue_type 
         'start) tuples x schedule')
 CASES = {'quick': 1200, 'thorough': 40000}
 BUDGET = {'quick': 150, 'thorough': 300}
-REQUIRE = {'runs': 500, 'lifo_deliveries': 500, 'fifo_deliveries': 500, 'lifo_with_pending_events': 200, 'runs_with_concurrent_poster': 200, 'objects_subscribed_both_ways': 150, 'deliveries_to_a_full_queue': 100, 'objects_subscribed_twice_the_same_way': 100}
+REQUIRE = {'runs': 500, 'lifo_deliveries': 500, 'fifo_deliveries': 500, 'lifo_with_pending_events': 200, 'runs_with_concurrent_poster': 200, 'objects_subscribed_both_ways': 150, 'deliveries_to_a_full_queue': 100, 'objects_subscribed_twice_the_same_way': 100, 'uninstrumented_subscribers': 300}
 ASSUME = ['subscriptions of active objects (the statement); plain-deque subscribers keep the repository\'s pinned append behaviour']
 ANNOUNCE_CASES = True
 
@@ -99,7 +99,7 @@ def run_case(ctx, n):
   rng = ctx.rng('case', n)
   nobj = rng.randint(1, 3)
   cfg = [{'kind': rng.choice(['lifo', 'lifo', 'fifo', None, 'fifo+lifo', 'lifo+fifo', 'lifo+lifo', 'fifo+fifo']), 'before_start': rng.random() < 0.5, 'pending': rng.randint(0, 5),
-          'second_before_start': rng.random() < 0.3} for _ in range(nobj)]
+          'second_before_start': rng.random() < 0.3, 'instrumented': rng.random() < 0.65} for _ in range(nobj)]
   burst = rng.randint(1, 4)
   pol = dict(policy='random', p_switch=rng.choice([0.02, 0.1, 0.3])) if rng.random() < 0.7 else dict(policy='pct', pct_depth=rng.choice([2, 3]), pct_len=1500)
   s = ds.Sched(seed=rng.randrange(1 << 30), max_steps=3000000, **pol)
@@ -111,7 +111,9 @@ def run_case(ctx, n):
     try:
       for i, c in enumerate(cfg):
         hist = aosim.History()
-        a = aosim.make_ao(hist, name='c09_%d' % i)
+        a = aosim.make_ao(hist, name='c09_%d' % i, instrumented=c['instrumented'])
+        if not c['instrumented']:
+          ctx.count('uninstrumented_subscribers')
         st = make_state(hist, gate, 'c09_state_%d' % i)
         # 'fifo+lifo' / 'lifo+fifo': the same object subscribes to the signal in BOTH ways, one call after the other
         kinds = c['kind'].split('+') if c['kind'] else [None]
